@@ -421,3 +421,52 @@ Qed.
 
 End Generic.
 Transparent FUEL.
+
+(* ------------------------------------------------------------------ the semantics only depends on the
+   program table pointwise (used to transport theorems to the generated programs) *)
+Section Ext.
+Variables code1 code2 : nat -> list instr.
+Hypothesis Hext : forall c, code1 c = code2 c.
+
+Lemma start_ext : forall sc h res, start code1 h res sc = start code2 h res sc.
+Proof.
+  induction sc as [|[[c a0] a1] sc IH]; intros h res; cbn [start]; [reflexivity|].
+  rewrite Hext. destruct (run_local (code2 c) h FUEL 0 (init_regs a0 a1)); auto.
+Qed.
+
+Lemma advance_ext : forall t p r h, advance code1 t p r h = advance code2 t p r h.
+Proof.
+  intros. unfold advance. rewrite Hext.
+  destruct (run_local (code2 (cid t)) h FUEL p r); auto using start_ext.
+Qed.
+
+Lemma abort_ext : forall t h e, abort code1 t h e = abort code2 t h e.
+Proof. intros. unfold abort. apply start_ext. Qed.
+
+Lemma step_ext : forall g i go, step code1 g i go = step code2 g i go.
+Proof.
+  intros. unfold step.
+  destruct (nth_error (thr g) i) as [t|]; [|reflexivity].
+  destruct (fin t); [reflexivity|]. rewrite Hext.
+  destruct (nth_error (code2 (cid t)) (pc t)) as [ins|]; [|reflexivity].
+  destruct ins; try reflexivity; rewrite ?advance_ext, ?abort_ext; try reflexivity.
+  - destruct go; [|rewrite ?advance_ext; reflexivity].
+    destruct (sem_acq (nth s (sems g) dsem) (nth s (held t) 0)) as [[sm' h']|];
+      rewrite ?advance_ext; reflexivity.
+  - destruct go; [|reflexivity].
+    destruct (sem_rel (nth s (sems g) dsem) (nth s (held t) 0)) as [[sm' h'] e'].
+    rewrite ?advance_ext, ?abort_ext. reflexivity.
+Qed.
+
+Lemma run_ext : forall sched g, run code1 g sched = run code2 g sched.
+Proof.
+  induction sched as [|[i go] sched IH]; intros g; cbn [run]; [reflexivity|].
+  rewrite step_ext. destruct (step code2 g i go) as [[g1 e]|]; [|reflexivity].
+  rewrite IH. reflexivity.
+Qed.
+
+Lemma init_sys_ext : forall ss scripts, init_sys code1 ss scripts = init_sys code2 ss scripts.
+Proof.
+  intros. unfold init_sys. f_equal. apply map_ext. intros. apply start_ext.
+Qed.
+End Ext.
